@@ -53,6 +53,35 @@ def _spec_fits(kind: Optional[str], spec: Optional[str]) -> bool:
     return False
 
 
+_MUTABLE_GLOBALS: Dict[str, Any] = {}
+
+
+def _mutable_globals(mod: Any) -> Any:
+    """Names that some function of the module declares `global` and assigns."""
+    key = f"{id(mod)}:{mod.name}"
+    if key not in _MUTABLE_GLOBALS:
+        out = set()
+        tree = getattr(mod, "tree", None)
+        if tree is not None:
+            for fn in ast.walk(tree):
+                if isinstance(fn, (ast.FunctionDef, ast.AsyncFunctionDef)):
+                    declared = {n for st in ast.walk(fn) if isinstance(st, ast.Global) for n in st.names}
+                    if not declared:
+                        continue
+                    for st in ast.walk(fn):
+                        tgts = []
+                        if isinstance(st, ast.Assign):
+                            tgts = st.targets
+                        elif isinstance(st, (ast.AugAssign, ast.AnnAssign)):
+                            tgts = [st.target]
+                        for t in tgts:
+                            for x in ast.walk(t):
+                                if isinstance(x, ast.Name) and x.id in declared:
+                                    out.add(x.id)
+        _MUTABLE_GLOBALS[key] = out
+    return _MUTABLE_GLOBALS[key]
+
+
 class ExprMixin:
     # -- these come from InterpCore / CallMixin
     prog: Any
@@ -90,6 +119,12 @@ class ExprMixin:
         ck = (mod.name, name)
         if ck in self._module_cache:
             return self._module_cache[ck]
+        if name in _mutable_globals(mod):
+            # re-bound by some function through `global`: what it holds when a call starts is whatever earlier calls
+            # left there, not the value of the module-level initialiser
+            v = Sym(f"global {mod.name}.{name}", None, ("global", mod.name, name))
+            self._module_cache[ck] = v
+            return v
         r = self.prog.resolve(mod.name, name) if name in mod.bindings else None
         v: V
         if r is None and name not in mod.bindings:
